@@ -3,6 +3,9 @@ PROP = dict(
     make=["build/bin/c16", "build/gen/x86_forms.txt"],
     quick=dict(cases=80000, max_size=60, workers=16),
     thorough=dict(cases=1600000, max_size=80, workers=16, timeout=3600),
+    # ASan's stack depot grows without bound with rapidcheck's deep, ever-changing generator stacks (2 GB per worker after ~80k cases with the
+    # default 30-frame malloc contexts): keep allocation contexts short and the quarantine small.
+    env=dict(ASAN_OPTIONS="detect_leaks=1:abort_on_error=0:exitcode=99:allocator_may_return_null=1:detect_stack_use_after_return=0:malloc_context_size=8:quarantine_size_mb=64"),
     rule=("a case = cfg [arch x64|x86|a64, emitter kind Assembler|Builder|Compiler, flags: logger / strict validation / perturbed heap / static "
           "arena buffer / RA debug logging, final step reset(soft)|reset(hard)|reinit, object mix (both recycled | recycled holder + fresh "
           "emitter | fresh holder + recycled emitter), encoding options, flatten+relocate] + a HISTORY of ops applied to one long-lived "
